@@ -101,13 +101,13 @@ TEXT = {
     "C02": {
         "engine": "crash",
         "technique": "runtime trace monitoring + enumeration of crash images (cut x lost-subset x sector tearing) replayed into the real recovery; offline oracle over acknowledgement-relative generation windows",
-        "level_text": "For every flush()/clean-drop acknowledgement in the recorded workloads, every later cut of the device trace (all cuts on short traces, all fsync-adjacent cuts plus a seeded sample on long ones) is expanded into images: durable prefix + each subset (all subsets when <=4, else empty/all/singles/leave-one-out/random) of the writes not yet covered by a completed fsync, plus sector-torn variants of the in-flight write. Each distinct image is recovered by the real store; every key must hold a generation no older than the last one completed before the acknowledged call began, and acknowledged deletes must stay deleted. A second, chained epoch re-opens a sample of crash images (preferring those where a key has two generations on the device), takes what recovery exposes as acknowledged, deletes / rewrites every recovered key, flushes, and enumerates crash images of that second trace: nothing older than the recovered state may ever come back (this is what catches recovery leaving stale generations behind).",
+        "level_text": "For every flush()/clean-drop acknowledgement in the recorded workloads, every later cut of the device trace (all cuts on short traces, all fsync-adjacent cuts plus a seeded sample on long ones) is expanded into images: durable prefix + each subset (all subsets when <=4, else empty/all/singles/leave-one-out/random) of the writes not yet covered by a completed fsync, plus sector-torn variants of the in-flight write. Each distinct image is recovered by the real store; every key must hold a generation no older than the last one completed before the acknowledged call began, and acknowledged deletes must stay deleted. A second, chained epoch re-opens a sample of crash images (preferring those where a key has two generations on the device), takes what recovery exposes as acknowledged, deletes / rewrites every recovered key, flushes, and enumerates crash images of that second trace: nothing older than the recovered state may ever come back (this is what catches recovery leaving stale generations behind). A deterministic probe drives the schedule of finding C02-2: two flush workers sharing a retired free run, the first delayed between allocation and the device (hook point flush.allocated); every fsync boundary of that run is a crash point whose durable image must recover both acknowledged keys.",
         "level_note": _CRASH_NOTE,
     },
     "C03": {
         "engine": "crash",
         "technique": "runtime trace monitoring + enumeration of crash images over the whole trace (including first-open of a fresh device) replayed into the real recovery; authenticity oracle over self-describing values; second opinion by an independent decoder",
-        "level_text": "Same image enumeration over the WHOLE trace (from the very first metadata write of a fresh device): every image must reopen; every exposed key must be one the application wrote, with a (value, timestamp, expiry) triple that is exactly one of its generations, not older than the last acknowledged one and not invoked after the cut; values must pass the self-check (complete, right key, right write; ghost record heads / marker images embedded in multi-block values must never surface); len() must equal the number of exposed keys; the independent decoder must see the same contents. One genuine defect found and fixed (fresh-device metadata not fsynced before the first journal write).",
+        "level_text": "Same image enumeration over the WHOLE trace (from the very first metadata write of a fresh device): every image must reopen; every exposed key must be one the application wrote, with a (value, timestamp, expiry) triple that is exactly one of its generations, not older than the last acknowledged one and not invoked after the cut; values must pass the self-check (complete, right key, right write; ghost record heads / marker images embedded in multi-block values must never surface); len() must equal the number of exposed keys; the independent decoder must see the same contents. Two genuine defects found and fixed (fresh-device metadata not fsynced before the first journal write; stale retirement markers in front of a record made durable by another flush worker, C02-2, for which a deterministic split-run probe runs in every check).",
         "level_note": _CRASH_NOTE,
     },
     "C04": {
@@ -143,7 +143,7 @@ TEXT = {
     "C13": {
         "engine": "model",
         "technique": "runtime differential monitoring of len()/memory_usage() after every call, with memory limits (sequential part)",
-        "level_text": "Memory-biased programs with limits admitting only some writes: after every call memory_usage() must equal the sum over live keys of (measured overhead + key + value), len() the number of live keys, usage never above the limit, refused writes change nothing (same record objects), and draining every key returns usage to zero; across flush and recovery; every store recovered from an enumerated crash image (crash engine) must account exactly the recovered keys as well. Concurrent part: 8-16 creators/growers/shrinkers/deleters/incrementers against a limit admitting only some of them, with a monitor thread sampling memory_usage() continuously and a deterministic probe reading it while several writers are parked between reservation and publish (hook point mem.reserved): usage <= limit at every sample, equal-sized records never exceed floor(limit/size) live keys, refused writes leave the key as it was, exact equality and zero-after-drain at quiescence. Same-key races (the linearizability engine's histories: concurrent upserts / CAS / increments / deletes of one key with different value sizes) are followed by an exact quiescent comparison of memory_usage() with the live records and a drain to zero.",
+        "level_text": "Memory-biased programs with limits admitting only some writes: after every call memory_usage() must equal the sum over live keys of (measured overhead + key + value), len() the number of live keys, usage never above the limit, refused writes change nothing (same record objects), and draining every key returns usage to zero; across flush and recovery; every store recovered from an enumerated crash image (crash engine) must account exactly the recovered keys as well. Concurrent part: 8-16 creators/growers/shrinkers/deleters/incrementers against a limit admitting only some of them, with a monitor thread sampling memory_usage() continuously and a deterministic probe reading it while several writers are parked between reservation and publish (hook point mem.reserved): usage <= limit at every sample (len() during the run is reported, not judged: it is a separate counter), refused writes leave the key as it was, exact equality and zero-after-drain at quiescence. Same-key races (the linearizability engine's histories: concurrent upserts / CAS / increments / deletes of one key with different value sizes) are followed by an exact quiescent comparison of memory_usage() with the live records and a drain to zero.",
         "level_note": _MODEL_NOTE,
     },
     "C14": {
